@@ -893,6 +893,9 @@ def run(chk):
     ia, ib = {norm_idx(x) for x in sites[gd[0]]["idx"]}, {norm_idx(x) for x in sites[gs[0]]["idx"]}
     chk.instance(r_ca, "index", sample=dict(getData=sorted(ia), getSIDoubleData=sorted(ib)))
 
+    from verif import fallthrough
+    fallthrough.run(chk, "C02", floor=12)
+
     chk.assumptions += [
         "tables/measure_dims.json and tables/physical_units.json are the independent oracle (SI definitions; Eclipse unit conventions)",
         "that each keyword item carries the physically right dimension is not decided",
